@@ -210,6 +210,12 @@ class BoundedInterp(Interp):
         self.iterations = 0
         self.worst = (0, None)
 
+    def allocation(self, n, node=None):
+        # building a sequence of n elements in one step is n units of work (and memory), whatever the loop count says
+        self.iterations += n
+        if n > self.limit:
+            raise WorkExceeded(f'a sequence of {n} elements is allocated at line {getattr(node, "lineno", "?")} of {self.cur[-1].qual if self.cur else "?"} (passed {self.limit})')
+
     def iterate(self, it):
         if isinstance(it, K) and isinstance(it.v, range) and len(it.v) > self.MAX_UNROLL:
             return LazyRange(self, it.v)
@@ -499,6 +505,47 @@ def check(run):
         if out:
             run.ok('D2', f'tl: {name}', f'{len(raw)}-byte input: {out} after {it.iterations} loop iterations')
         run.evaluations += 1
+    # nested bytes fields that pack two objects each: the parser's work must grow with the length, not with 2^depth
+    nlines = [('x', 'test.w data:bytes = test.W;'), ('x', 'test.nop = test.Nop;')]
+
+    def tl_bytes(b):
+        assert len(b) < 254
+        body = bytes([len(b)]) + b
+        return body + b'\x00' * (-len(body) % 4)
+    depths = (2, 4, 6, 8) if run.tier != 'thorough' else (2, 4, 6, 8, 10, 12, 14)
+    counts, lens = [], []
+    failure = None
+    for d in depths:
+        raw = tid(nlines[0][1]) + tl_bytes(tid(nlines[1][1]))
+        for _ in range(d):
+            raw = tid(nlines[0][1]) + tl_bytes(raw + tid(nlines[1][1]))
+        it = CountingInterp(prog)
+        it.INJECTIVE_KEYS = True
+        it.MAX_STEPS = 3_000_000
+        try:
+            S, _ = build_schemas(prog, it, nlines)
+            it.calls = {}
+            cm.call_method(it, S, 'deserialize', K(raw))
+        except RaiseEx as e:
+            failure = f'depth {d}: raised {e.kind}'
+            break
+        except Fail as e:
+            if 'step' in str(e).lower() or 'budget' in str(e).lower():
+                counts.append(max(it.calls.values() or [0]))
+                lens.append(len(raw))
+                failure = f'depth {d} ({len(raw)} bytes): interpretation budget of {it.MAX_STEPS} steps exhausted'
+                break
+            raise AnalysisError(f'TL nesting scenario depth {d}: {e}')
+        counts.append(max(v for k, v in it.calls.items()))
+        lens.append(len(raw))
+        run.evaluations += 1
+    ok = failure is None
+    if ok:
+        slope = max(1.0, (counts[1] - counts[0]) / (lens[1] - lens[0]))
+        ok = all(counts[i] <= counts[0] + 2 * slope * (lens[i] - lens[0]) + 8 for i in range(len(lens)))
+    run.check(ok, 'D2', 'TlSchemas.deserialize[nested packed bytes]' if not ok else 'tl: nested bytes fields packing two objects each',
+              f'inputs of {lens} bytes (nesting {list(depths)[:len(lens)]}): most-executed call/loop runs {counts} times' + (f'; {failure}' if failure else '') +
+              ('' if ok else ' - the work grows with the number of nestings exponentially, not with the length'), wt)
     # ---- D2s the data-bounded loops are known
     loops = data_bounded_loops(prog, ('boc.deserialize', 'tl.generator'))
     for f, n in loops:
